@@ -15,10 +15,25 @@ import (
 // Options tune normalisation.
 type Options struct {
 	FoldCase bool // case-fold every string (used where only keyword/operator case may differ)
+	// FoldKeywords case-folds only the string fields that hold keywords or
+	// operator words (operators, join/frame/lock/fetch types, type names, boolean
+	// literal spellings); names, aliases and literal contents stay exact.
+	FoldKeywords bool
 	// Skip names fields ("Type.Field") that are left out of the dump.
 	Skip map[string]bool
 	// MaxDepth guards against runaway structures (0 = 10000).
 	MaxDepth int
+}
+
+// keywordFields lists string fields whose content is a keyword or operator word.
+var keywordFields = map[string]bool{
+	"BinaryExpression.Operator": true, "SetOperation.Operator": true, "WindowFrame.Type": true, "WindowFrameBound.Type": true,
+	"JoinClause.Type": true, "FetchClause.FetchType": true, "ForClause.LockType": true, "LiteralValue.Type": true,
+	"CastExpression.Type": true, "AnyExpression.Operator": true, "AllExpression.Operator": true, "ColumnDef.Type": true,
+	"ColumnConstraint.Type": true, "TableConstraint.Type": true, "DropStatement.ObjectType": true, "DropStatement.CascadeType": true,
+	"TruncateStatement.CascadeType": true, "MergeWhenClause.Type": true, "MergeAction.ActionType": true, "ReferenceDefinition.OnDelete": true,
+	"ReferenceDefinition.OnUpdate": true, "IndexColumn.Direction": true, "CreateIndexStatement.Using": true, "CreateViewStatement.WithOption": true,
+	"PartitionBy.Type": true, "AlterTableAction.Type": true,
 }
 
 // Dump renders v.
@@ -102,11 +117,22 @@ func (d *dumper) dump(v reflect.Value, depth int) {
 		d.b.WriteString(t.Name())
 		d.b.WriteString("{")
 		first := true
+		foldThis := -1
+		if d.o.FoldKeywords {
+			if t.Name() == "LiteralValue" {
+				if ty := v.FieldByName("Type"); ty.IsValid() && ty.Kind() == reflect.String && strings.EqualFold(ty.String(), "bool") {
+					if idx, ok := t.FieldByName("Value"); ok {
+						foldThis = idx.Index[0]
+					}
+				}
+			}
+		}
 		for i := 0; i < v.NumField(); i++ {
 			f := v.Field(i)
 			if d.o.Skip != nil && d.o.Skip[t.Name()+"."+t.Field(i).Name] {
 				continue
 			}
+			fold := d.o.FoldKeywords && (keywordFields[t.Name()+"."+t.Field(i).Name] || i == foldThis)
 			if !f.CanInterface() {
 				if f.CanAddr() {
 					f = reflect.NewAt(f.Type(), unsafe.Pointer(f.UnsafeAddr())).Elem()
@@ -127,7 +153,14 @@ func (d *dumper) dump(v reflect.Value, depth int) {
 			first = false
 			d.b.WriteString(t.Field(i).Name)
 			d.b.WriteString(":")
-			d.dump(f, depth+1)
+			if fold {
+				saved := d.o.FoldCase
+				d.o.FoldCase = true
+				d.dump(f, depth+1)
+				d.o.FoldCase = saved
+			} else {
+				d.dump(f, depth+1)
+			}
 		}
 		d.b.WriteString("}")
 	case reflect.Slice, reflect.Array:
